@@ -1,6 +1,8 @@
 // mharness: in-process differential harness (tie T2).  Generates cases from one seeded PRNG,
 // calls the REAL Miller code from /repo's current tree, and prints one protocol line per case:
-//   <op> <arg>* | <canonical impl result>
+//
+//	<op> <arg>* | <canonical impl result>
+//
 // All string payloads are hex ("-" = empty string), floats are IEEE bit patterns.
 package main
 
@@ -12,6 +14,7 @@ import (
 	"os"
 	"strconv"
 	"strings"
+	"syscall"
 
 	"github.com/johnkerl/miller/v6/pkg/mlrval"
 )
@@ -28,8 +31,8 @@ func (r *rng) next() uint64 {
 	z = (z ^ (z >> 27)) * 0x94d049bb133111eb
 	return z ^ (z >> 31)
 }
-func (r *rng) intn(n int) int { return int(r.next() % uint64(n)) }
-func (r *rng) pick(xs []string) string { return xs[r.intn(len(xs))] }
+func (r *rng) intn(n int) int           { return int(r.next() % uint64(n)) }
+func (r *rng) pick(xs []string) string  { return xs[r.intn(len(xs))] }
 func (r *rng) chance(num, den int) bool { return r.intn(den) < num }
 
 func hx(s string) string {
@@ -81,7 +84,6 @@ func guard(f func() string) (res string) {
 	return f()
 }
 
-
 // ---- op registry: generators print "<op> <args>"; `eval` appends " | <impl result>".
 type opFunc func(args []string) string
 
@@ -103,9 +105,19 @@ func unhx(s string) string {
 
 func main() {
 	out = bufio.NewWriterSize(os.Stdout, 1<<20)
-	defer out.Flush()
+	defer func() { out.Flush() }()
 	defer cleanupScratch()
 	if len(os.Args) >= 2 && os.Args[1] == "eval" {
+		// The protocol goes to a private copy of stdout; fd 1 itself is pointed at /dev/null so that
+		// Miller code that writes to stdout directly (tee > stdout, a goroutine that outlives its
+		// timed-out op) cannot corrupt it.
+		if fd, err := syscall.Dup(1); err == nil {
+			if dn, err := os.OpenFile("/dev/null", os.O_WRONLY, 0); err == nil {
+				out = bufio.NewWriterSize(os.NewFile(uintptr(fd), "protocol"), 1<<20)
+				_ = syscall.Dup2(int(dn.Fd()), 1)
+				os.Stdout = dn
+			}
+		}
 		sc := bufio.NewScanner(os.Stdin)
 		sc.Buffer(make([]byte, 1<<20), 1<<28)
 		for sc.Scan() {
@@ -123,7 +135,7 @@ func main() {
 				fmt.Fprintf(out, "%s | BADOP\n", line)
 				continue
 			}
-			risky := f[0] == "fn" || f[0] == "dslr" || f[0] == "rdz" || f[0] == "chainb" || f[0] == "thenpipe" || f[0] == "mlr" || f[0] == "verbs" || f[0] == "verbsx" || f[0] == "sortv" || f[0] == "pair" || f[0] == "bystand" || f[0] == "rt" || f[0] == "rd" || f[0] == "style"
+			risky := f[0] == "fn" || f[0] == "recur" || f[0] == "dslr" || f[0] == "rdz" || f[0] == "chainb" || f[0] == "thenpipe" || f[0] == "mlr" || f[0] == "verbs" || f[0] == "verbsx" || f[0] == "sortv" || f[0] == "pair" || f[0] == "bystand" || f[0] == "rt" || f[0] == "rd" || f[0] == "style"
 			if risky {
 				out.Flush() // the op may kill the process (os.Exit inside Miller): keep everything before it
 			}
